@@ -5,7 +5,7 @@ from guard import Guards, check_refusal
 
 LEVEL = "other"
 EXPLANATION = (
-    "Decides TWO clauses of C10 (kind refusal; start nodes enumerated from the node store -- R-C10-2): each component function returns an error (never an answer) on the wrong kind of graph. "
+    "Decides THREE clauses of C10 (kind refusal; start nodes enumerated from the node store -- R-C10-2; R-C10-3: the adjacency maps the searches walk are only extended -- an entry is created only for a node that is new, never replaced for an existing one): each component function returns an error (never an answer) on the wrong kind of graph. "
     "Rule R-C10-1 (GUARD): in the MIR of connected_components, number_of_connected_components, node_connected_component "
     "(refuse directed) and weakly_/strongly_connected_components (refuse undirected), every block that can produce a non-error "
     "return value is reachable from the entry only through the continue edge of a guard -- a test of specs.directed, or the "
@@ -68,4 +68,32 @@ def run(ctx):
         cal = {b.blocks[n_[1]].term.callee.short.split("::")[-1] for n_ in sl if n_[0] == "CALL" and b.blocks[n_[1]].term.callee}
         ok = bool(cal & {"get_all_node_names", "get_all_nodes"}) and not (cal & {"get_successors_map", "get_predecessors_map", "keys", "get_all_edges"})
         ctx.require(ok, "R-C10-2", "outer-loop|" + b.short, "%s starts a search from every node of the node store" % sfx.split("::")[-1], "%s enumerates its start nodes from %s: a node without an entry there (e.g. an isolated node) ends up in no component" % (sfx.split("::")[-1], sorted(cal)), loc_str(t.span))
+    # ------------------------------------------------------------------ R-C10-3
+    ctx.rule("R-C10-3", "the adjacency maps the searches walk are only ever extended: a whole-entry insert into them happens only for a node that is new")
+    from effects import Effects
+    from engines import canon_exists
+    from graphrules import index_events, direct_index_access, SUCC, PRED
+    from props.c01 import controlling_atoms
+    from flow import fmt_desc
+
+    effects = Effects(prog, flows)
+    n_ins = 0
+    for p in sorted(direct_index_access(prog)):
+        b = prog.bodies[p]
+        fl = flows.of(b)
+        for (bb, site, f, k) in index_events(effects, b):
+            if f not in (SUCC | PRED) or f.endswith("_vec") or k != "HashMap::insert":
+                continue
+            if getattr(site, "k", None) != "call" or not site.callee or not site.callee.short.endswith("HashMap::insert"):
+                continue
+            # only inserts on the store itself (an entry of the OUTER map), not into a neighbour set
+            rd = fl.field_path(site.args[0].place) if site.args and site.args[0].place is not None else ""
+            n_ins += 1
+            fresh = False
+            for (t, v, a) in controlling_atoms(fl, bb):
+                ce = canon_exists(fl, t, v, a)
+                if ce is not None and ce[2] is False and (fmt_desc(ce[0]).endswith("nodes_map") or fmt_desc(ce[0]).endswith(f)):
+                    fresh = True
+            ctx.require(fresh, "R-C10-3", "insert|%s|%s" % (b.short, f), "the entry of `%s` is (re)created in %s only for a key that is not present yet" % (f, b.short.split("::")[-1]), "`%s`.insert in %s is not limited to new nodes: re-adding an existing node replaces its adjacency entry with a fresh one, so searches that walk `%s` stop at that node" % (f, b.short, f), loc_str(site.span))
+    ctx.floor("R-C10-3", "adjacency_entry_inserts", n_ins, 2)
     ctx.note("bfs_equal_size_partitions and breadth_first_search have no error channel; they cannot refuse and are handled under C20")
